@@ -188,11 +188,14 @@ pub fn scan<V: Vary>(
     let dv_dx = {
         let dx0 = r0.0.x() - l0.0.x();
         let dx1 = r1.0.x() - l1.0.x();
-        if dx0.abs() >= dx1.abs() {
-            l0.dv_dt(r0, dx0.recip())
+        let (l, r, dx) = if dx0.abs() >= dx1.abs() {
+            (l0, r0, dx0)
         } else {
-            l1.dv_dt(r1, dx1.recip())
-        }
+            (l1, r1, dx1)
+        };
+        // A zero-width polygon has no gradient; avoid 0 * inf = NaN
+        let recip_dx = dx.recip();
+        l.dv_dt(r, if recip_dx.is_finite() { recip_dx } else { 0.0 })
     };
 
     // Find the y value of the next pixel center (.5) vertically
